@@ -110,6 +110,11 @@ Qed.
 
 Theorem hom_rate_dip_both n g a t0 gs :
   square_sym n g -> (forall k, (k < n * n)%nat -> gs k = transpose_arr n (separable_phase g a t0) k) ->
+  rsum n (fun s => cnorm2 ROps (a s)) <> 0 ->
+  jsi_norm ROps (n * n) (separable_phase g a t0) <> 0 /\
   (forall tau, hom_rate g (separable_phase g a t0) gs tau None = dip_rate g a (tau - t0)) /\
-  (rsum n (fun s => cnorm2 ROps (a s)) <> 0 -> hom_rate g (separable_phase g a t0) gs t0 None = 0).
-Proof. intros Hg Hgs. split; [apply (hom_rate_dip n g a t0 Hg gs Hgs)|apply (hom_rate_dip_zero n g a t0 Hg gs Hgs)]. Qed.
+  hom_rate g (separable_phase g a t0) gs t0 None = 0.
+Proof.
+  intros Hg Hgs Hn. split; [|split; [apply (hom_rate_dip n g a t0 Hg gs Hgs)|apply (hom_rate_dip_zero n g a t0 Hg gs Hgs Hn)]].
+  rewrite (dip_norm n g a t0 Hg). apply Rmult_integral_contrapositive_currified; exact Hn.
+Qed.
